@@ -40,6 +40,21 @@ CLAIMED = {
    note="Trusted: the tree lister/decoder in drive/loot.go. Two writers holding the same target file at once are outside the property (content is defined per file id) and excluded from generation. Crafted third-party agent ids are not exercised: a failing log-file open in pkg/logr ends in log.Fatal, which would terminate the harness process (recorded in DESIGN.md as an observation, not as a C07 finding).",
    technique="TLA+ path-algebra spec + TLC; complete name alphabet and interleavings replayed into the real code; TLC trace validation of tree listings",
    design="DESIGN.md §5 C07"),
+ "C06": dict(
+   text="Operators.tla models every socket's received frames, the retained list and the fan-out; Registry.tla the service endpoint. TLC checks NothingBeforeAuth/ErrorOnlyAfterRefusal over the bounded state space. Conformance with real websocket clients against the real per-connection loops (operator loop via the guarded export, service loop likewise): for each of 11 first-message kinds (good, extra fields, wrong digest, clear-text password, unknown user, non-JSON, missing/ill-typed password, no info, wrong event, wrong sub-event) every placement of chat and agent-output broadcasts and of follow-up messages around the handshake (399 matrices), plus random walks; service walks with good/bad passwords and registrations sent before/without the password. Every frame each socket received is labelled and TLC validates: an unauthenticated socket has received nothing but at most one error frame, and nothing it sent was dispatched. Panics of the connection goroutine are caught and reported.",
+   note="Trusted: frame labelling in drive/operators.go, gorilla/websocket client. In the real binary a panic of the connection goroutine ends the process; the harness wrapper catches it instead. First messages are the listed kinds, not arbitrary bytes.",
+   technique="TLA+ spec + TLC; handshake matrices and walks replayed with real websockets; TLC trace validation (strict + monitor)",
+   design="DESIGN.md §5 C06"),
+ "C11": dict(
+   text="Operators.tla: retained list (with pruning of removed listeners, one-shots never retained), replay on authentication (retained events in order, then live sessions), fan-out of chat / agent output / registrations / listener events to every authenticated operator, clean close, and a transport reset racing a broadcast. TLC checks the bounded state space; handshake matrices, listener add/remove/replay scenarios and seeded 12-step walks are replayed with real websocket clients; every frame of every socket is compared with the model (unknown frame kinds ignored), the server's send mutexes are probed after every step and every synchronous call runs under a watchdog, so a blocked broadcaster shows up as a held lock or a hang.",
+   note="Transport faults are connection resets and server-side closes; a stalled-but-open peer (full TCP window) is not produced. The order of the two frames produced by a reset racing a chat line is canonicalised by the harness (both orders are legal). Concurrent broadcasters are not scheduled deterministically.",
+   technique="TLA+ spec + TLC; behaviours replayed with real websockets; TLC trace validation (strict + monitor)",
+   design="DESIGN.md §5 C11"),
+ "C16": dict(
+   text="Registry.tla: running / persisted / advertised listener sets with duplicate and unknown names, HTTP listeners on free and on occupied ports, edit + serve, and service connections registering agent types, listener types and external-C2 endpoints and leaving in any order. TLC explores the complete state space (858k states). Walks are replayed on the real server: HTTP listeners bind real loopback ports (TCP connect probes after every step), edits are checked by real HTTP requests with the old/new user agent, service connections are real websockets. After each step the running list, TS_Listeners, retained add-events, ports, service agent/listener lists and the endpoint table are projected and TLC validates them strictly and against the monitor (unique names, three views equal for built-in kinds, removed listener not accepting, edit applies, owner-scoped cleanup, process keeps running).",
+   note="HTTP Stop() waits 5 s by construction, so listener walks use at most two HTTP listeners. Ports are whatever loopback ports are free at run time. Service-defined listener start messages are sent to the service client but not answered.",
+   technique="TLA+ spec + exhaustive TLC; walks replayed into the real code incl. real sockets; TLC trace validation",
+   design="DESIGN.md §5 C16"),
 }
 NOT_BUILT = "machinery not built yet (construction order in DESIGN.md §8); not claimed until its check runs clean on the unchanged tree"
 
